@@ -432,7 +432,9 @@ def fix_reimported_names(source: str) -> str:
 
     transaction = 0
 
-    for node in core.walk(root, ast.ImportFrom):
+    # The new imports go to the top of the module, so only imports of the module level are
+    # replaced: elsewhere they bind the name in another scope, or only sometimes.
+    for node in core.filter_nodes(root.body, ast.ImportFrom):
         if node.module in constants.PYTHON_311_STDLIB:
             continue
 
